@@ -111,6 +111,24 @@ def c20_lookup(pi: int, ns: int, nc: int, use_ns: bool, use_nc: bool) -> bool:
     return one is None
 
 
+def c20_lookup_desc(ti: int, k: int, drop: bool, use_counts: bool) -> bool:
+    """lookup by instrument and description prefix: the tuning returned has that instrument and a description
+    starting with the given text (and the given counts); text that no description of the instrument starts with
+    (here: a piece cut from inside a description) finds nothing"""
+    t = pick(TUN, ti)
+    d = t.description
+    k = enum(k, 0, 14)
+    lo = 1 if fork(drop) else 0
+    piece = d[lo : lo + k] if k < 13 else d[lo:]
+    ns = t.count_strings() if fork(use_counts) else None
+    nc = t.count_courses() if use_counts else None
+    cands = [x for x in TUN if x.instrument == t.instrument and x.description.upper().startswith(piece.upper()) and (ns is None or (x.count_strings() == ns and x.count_courses() == nc))]
+    got = tunings.get_tuning(t.instrument, piece, ns, nc)
+    if not cands:
+        return got is None
+    return got is not None and any(got is x for x in cands)
+
+
 SMALL = [t for t in TUN if not any(isinstance(x, list) for x in t.tuning)]
 
 
@@ -366,6 +384,8 @@ def claims(tier):
         B = 999 if q else 10 ** 6
         cl.append(Claim("get_note[t%d-%d]" % (lo, hi - 1), c20_get_note, params={"lo": lo, "hi": hi, "B": B}, group="c20_get_note", pre=[lambda ti, s, f: P["lo"] <= ti < P["hi"] and -P["B"] <= s <= P["B"] and -P["B"] <= f <= P["B"]], timeout=1200 if q else 3000, bounds="tunings %d..%d; string and fret: every integer with |x| <= %d (symbolic; the error message renders them)" % (lo, hi - 1, B)))
     pref = PREF[::6] if q else PREF
+    for lo_ in range(0, len(TUN), 20):
+        cl.append(Claim("lookup_desc[t%d-%d]" % (lo_, min(len(TUN), lo_ + 20) - 1), c20_lookup_desc, params={"lo": lo_}, group="c20_lookup_desc", pre=[lambda ti, k: P["lo"] <= ti < min(len(TUN), P["lo"] + 20) and 0 <= k <= 13], timeout=1200 if q else 3000, bounds="get_tuning(instrument, text): text = the first 0..12 characters or all of a registered description, or the same cut one character in (usually no prefix of any description); with and without the string / course counts; tunings %d..%d" % (lo_, min(len(TUN), lo_ + 20) - 1)))
     for lo in range(0, len(pref), 6):
         sub = pref[lo : lo + 6]
         cl.append(Claim("lookup[%d-%d]" % (lo, lo + len(sub) - 1), c20_lookup, params={"pref": sub}, group="c20_lookup", pre=[lambda pi, ns, nc: 0 <= pi < len(P["pref"]) and 0 <= ns <= 8 and 0 <= nc <= 3], timeout=1200 if q else 3000, bounds="get_tunings / get_tuning: instrument strings %r; string count 0..8 symbolic, course count 0..3, each optional" % (sub,)))
@@ -380,7 +400,8 @@ def claims(tier):
     triples = [(0, 1, 2), (1, 2, 4), (3, 4, 5)] if q else list(itertools.combinations(range(6), 3))
     for tr in triples:
         for md in ((5,) if q else (3, 5, 6)):
-            cl.append(Claim("fingering3[strings=%d%d%d,md=%d]" % (tr + (md,)), c20_fingering_frets, params={"tuning": g, "strings": tr, "md": md}, group="c20_fingering", pre=[lambda f1, f2, f3: 0 <= f1 <= 8 and 0 <= f2 <= 8 and 0 <= f3 <= 8], timeout=1500 if q else 3200, bounds="find_fingering on %s %s: three notes at frets 0..8 (enumerated) of strings %r, max_distance %d, against the brute-force specification" % (g.instrument, g.description, tr, md)))
+          for f1lo, f1hi in ((0, 2), (3, 5), (6, 8)):
+            cl.append(Claim("fingering3[strings=%d%d%d,md=%d,f1=%d-%d]" % (tr + (md, f1lo, f1hi)), c20_fingering_frets, params={"tuning": g, "strings": tr, "md": md, "f1lo": f1lo, "f1hi": f1hi}, group="c20_fingering", pre=[lambda f1, f2, f3: P["f1lo"] <= f1 <= P["f1hi"] and 0 <= f2 <= 8 and 0 <= f3 <= 8], timeout=1500 if q else 3200, bounds="find_fingering on %s %s: three notes at frets 0..8 (enumerated) of strings %r, max_distance %d, against the brute-force specification" % (g.instrument, g.description, tr, md)))
     for ti in range(len(GUITARS) if not q else 2):
         cl.append(Claim("chord_fingering[%d]" % ti, c20_chord_fingering, params={"ti": ti}, group="c20_chord_fingering", pre=[lambda ti, ci, ri: ti == P["ti"] and 0 <= ci < (len(CHORDS) if not q else 3) and 0 <= ri < (12 if not q else 4)], timeout=1500 if q else 3200, per_path=120, bounds="find_chord_fingering on tuning %r: %d chord types x %d roots: every result sounds only and all chord pitch classes, span < 4, fingers <= 4, one entry per string" % (GUITARS[ti].description, len(CHORDS) if not q else 3, 12 if not q else 4)))
     tabt = SMALL[:: (15 if q else 4)]
